@@ -15,7 +15,7 @@ CLAIMS = {
              "affine combination of both buffers; L-BFGS fun/jac are value/gradient of "
              "the same terms. Does not decide that score <= tol implies "
              "eps-stationarity numerically."
-             " Every definition of the returned stopping value inside the budget loop is one the outer tolerance test sees; the intercept gradient enters through an entrywise absolute value taken before any reduction over tasks.",
+             " Every definition of the returned stopping value inside the budget loop is one the outer tolerance test sees; the intercept gradient enters through an entrywise absolute value taken before any reduction over tasks. path() carrying one model-fit buffer across grid points relies on _solve updating its Xw_init argument in place (checked against the solver's own binding); the outer tolerance is the solver's own `self.tol`, not a local rescaled by solver state; fixed-point scores are entry-wise |w_j - prox(w_j - g/L)| with the gradient pointer advanced for every group; solver __init__ stores hyper-parameters only (no shared mutable accelerator); the extrapolated pair is not modified between extrapolate() and acceptance.",
         design_ref="DESIGN.md §3.1 R-ZERO/R-CERT/R-FRESH/R-ANDERSON, §4 C01",
         note="Trusted: CPython ast; positional role seeds at BaseSolver._solve; slot "
              "method names of the datafit/penalty interface. Formulas inside the score "
@@ -37,7 +37,7 @@ CLAIMS = {
              "current coefficients (negative, positive and zero coefficients; every penalty "
              "offering `derivative`), i.e. the inner problem is a tangent majoriser. Does not "
              "decide monotonicity of the numerical objective."
-             " Line searches: every in-place move that depends on the step uses the same (step - prev_step) factor for iterate and model fit, and the step is saved before it is halved; an accepted candidate that is recomputed by a matrix product is built from the candidate coefficients only.",
+             " Line searches: every in-place move that depends on the step uses the same (step - prev_step) factor for iterate and model fit, and the step is saved before it is halved; an accepted candidate that is recomputed by a matrix product is built from the candidate coefficients only. The extrapolated pair (w_acc, Xw_acc) is judged and accepted exactly as extrapolate() produced it; path() never starts a grid point from a stale model fit.",
         design_ref="DESIGN.md §3.1 R-GUARD/R-STEP/R-LS/R-REWEIGHT, §4 C03",
         note="Assumes prox exactness and validity of L_k (C07/C09). Backtracking "
              "exhaustion fallback (`else: pass`) is reported as a note.",
@@ -71,7 +71,7 @@ CLAIMS = {
              "in-place buffer or the template X @ w[:p] + fit_intercept * w[-1]; _glm_fit's "
              "warm start follows the same template and reads fitted state only under "
              "warm_start; no solver object is cached across calls."
-             " The pairing itself is decided as identities on a 3x3 symbolic design: epoch kernels (coordinate, group, multitask; dense and CSC) leave Xw_after - Xw_before == X @ (w_after - w_before); prox-Newton and group prox-Newton descent directions return X_delta_w == X[:, ws] @ delta_w (+ intercept move); the three line searches, on a witness where the unit step is rejected, move every coefficient, the intercept and the model fit by one common multiple of the direction. A model-fit buffer created once before a path loop is paired only with zero starts, copies of the previous column, or is recomputed on the way to solve.",
+             " The pairing itself is decided as identities on a 3x3 symbolic design: epoch kernels (coordinate, group, multitask; dense and CSC) leave Xw_after - Xw_before == X @ (w_after - w_before); prox-Newton and group prox-Newton descent directions return X_delta_w == X[:, ws] @ delta_w (+ intercept move); the three line searches, on a witness where the unit step is rejected, move every coefficient, the intercept and the model fit by one common multiple of the direction. A model-fit buffer created once before a path loop is paired only with zero starts, copies of the previous column, or is recomputed on the way to solve. The tolerance compared at the outer exit is `self.tol` itself (a tolerance rescaled by the violation at the start point makes the certificate depend on the start); results returned by path() in the caller's order are un-permuted with the inverse of the sorting permutation.",
         design_ref="DESIGN.md §3.1 R-NONE/R-PAIR, §4 C05",
         note="That a warm-started run meets the certificate numerically is C01's undecided part.",
         technique="AST/CFG pattern rules with reaching definitions and effect summaries",
@@ -87,7 +87,7 @@ CLAIMS = {
              "initialize_sparse agree. Does not decide value() against the docstring formula, "
              "nor the internals of Cox's risk-set recursions (opaque operators), nor floating "
              "point agreement."
-             " Datafits used through their prox (Pinball, SqrtQuadratic): the prox output is stationary for the datafit's own value() on sign regions of a two-sample problem and prox_conjugate is the Moreau transform of prox. Every datafit accessor that exists in a dense and a _sparse version (gradients, coordinate / group / global Lipschitz constants; spectral norms compared through the matrix they are taken of) and full_grad_sparse against the stacked coordinate gradients are equal terms on a 3x3 design with structural zeros. Dense and CSC gradient builders of every solver family are equal terms on a 3x3 design with structural zeros, non-contiguous groups and a permuted working set; Cox: raw_grad is the derivative of value(), the risk-set operators are adjoint pairs and match their definitions on six tie / censoring patterns under both conventions.",
+             " Datafits used through their prox (Pinball, SqrtQuadratic): the prox output is stationary for the datafit's own value() on sign regions of a two-sample problem and prox_conjugate is the Moreau transform of prox. Every datafit accessor that exists in a dense and a _sparse version (gradients, coordinate / group / global Lipschitz constants; spectral norms compared through the matrix they are taken of) and full_grad_sparse against the stacked coordinate gradients are equal terms on a 3x3 design with structural zeros. Dense and CSC gradient builders of every solver family are equal terms on a 3x3 design with structural zeros, non-contiguous groups and a permuted working set; Cox: raw_grad is the derivative of value(), the risk-set operators are adjoint pairs and match their definitions on six tie / censoring patterns under both conventions. Lazy attributes (Cox tie groups, Xty ...) are assigned on every path of the initialisation that assigns them at all; no accessor writes into the object's own state (results are fresh arrays); accessor pairs are also compared on a 2x4 design whose group is unsorted, not a contiguous run, and wider than the sample count.",
         design_ref="DESIGN.md §2 L5, §3.5 R-SIB/R-DERIV, §4 C06",
         note="Trusted: identity list of sa/algebra.py, the lifting of CSC column loops to "
              "mask-weighted sums, domain table (Logistic labels in {-1,1}).",
@@ -132,7 +132,7 @@ CLAIMS = {
              "BlockMCPenalty, BlockSCAD, WeightedGroupL2 with both values of positive) on every "
              "region of a two-coefficient block in the working set equal the Euclidean norm of "
              "the coordinate-wise distances of -grad to the subdifferential derived from the "
-             "penalty's own value().",
+             "penalty's own value(). Penalties without subdiff_distance are scored by the fixed-point residual of their prox: that prox satisfies the first-order condition of value() on non-contiguous groups; score buffers allocated with np.empty receive a store on every loop path.",
         design_ref="DESIGN.md §3.5 R-DERIV (penalties), §4 C08",
         note="Strict and non-strict inequalities are identified (agreement almost everywhere); "
              "equality tests `w == 0` are exact.",
@@ -188,7 +188,7 @@ CLAIMS = {
              "float fields pass the float32 flag; every fit ends in _glm_fit/solver.solve; "
              "None-default arguments are not dereferenced unguarded; the (grp_indices, grp_ptr) "
              "pair of grp_converter reaches the group penalty and datafit unchanged. Does not decide "
-             "stationarity (C01) nor docstring formulas.",
+             "stationarity (C01) nor docstring formulas. Every path from solver.solve() to a return of _glm_fit refreshes the fitted attributes of the main path.",
         design_ref="DESIGN.md §3.3 R-PLUMB, §4 C11",
         note="Alias table (max_epochs->max_pn_iter, C->alpha) is reviewed by hand.",
         technique="data-flow of self.<param> into resolved constructor bindings",
@@ -200,7 +200,7 @@ CLAIMS = {
              "targets are never compared with raw class labels and the +/-1 mapping is "
              "arithmetic on the encoded indices. Probability normalisation and monotonicity "
              "are runtime behaviour of sklearn mix-ins and are not decided."
-             " Which datafits make an estimator a classifier is decided by one subclass-aware isinstance test shared by fit and predict; no class-name test mentions a datafit that has subclasses. `classes_` comes from the encoder fitted on the raw targets; prediction methods read `coef_[0]` only in the binary case; a hand-written exponential of a decision value is shifted by its row-wise maximum (or otherwise bounded above), library links excepted.",
+             " Which datafits make an estimator a classifier is decided by one subclass-aware isinstance test shared by fit and predict; no class-name test mentions a datafit that has subclasses. `classes_` comes from the encoder fitted on the raw targets; prediction methods read `coef_[0]` only in the binary case; a hand-written exponential of a decision value is shifted by its row-wise maximum (or otherwise bounded above), library links excepted. Every return of _glm_fit after solve() assigns coef_ / intercept_; prediction methods never test for the presence of an attribute that only one branch of the fit assigns.",
         design_ref="DESIGN.md §3.3 R-OVR, §4 C12",
         note="Structural necessary conditions only.",
         technique="AST rules on _glm_fit (last-assignment and kind-of-value checks)",
@@ -233,7 +233,7 @@ CLAIMS = {
              "feature/group, never its position in the working set; grp_converter only applies "
              "order-preserving operations to the group specification. Equivariance of converged "
              "solutions and scaling laws are numerical and not decided."
-             " No comparison against an absolute literal threshold (0 < |c| < 1e-3) anywhere in library code.",
+             " No comparison against an absolute literal threshold (0 < |c| < 1e-3) anywhere in library code. In-place reordering through an alias of the group indices (np.asarray + sort) is a violation; fixed-point scores keep the gradient pointer in step for every group order.",
         design_ref="DESIGN.md §2 L4, §3.4 R-IDX, §4 C15",
         note="Unknown kinds never raise alarms; only definite contradictions do.",
         technique="belief-style index-domain inference (unification of index kinds with axis "
@@ -247,7 +247,7 @@ CLAIMS = {
              "coefficient arrays occur only under the intercept flag; offset subscripts of "
              "pointer arrays (indptr[j+1], grp_ptr[g+1]) are within the loop bound. "
              "Value-dependent indices (contents of user arrays) are an input contract."
-             " Every solver kernel, fixed-point score and CSC helper is lifted on small concrete shapes (3x3 design with structural zeros / an empty column, non-contiguous groups, permuted working sets) where every subscript is bounds-checked by the lifter: an out-of-range index on those shapes is a violation. Across calls: a kernel that indexes a parameter by coordinates is never handed an array restricted to the working set; initialize / initialize_sparse is control-dependent on the storage dispatch only, so lazy attributes of earlier data are never read. Whole-array slot arguments match the per-feature attributes of accepted implementations; Anderson buffers and reshapes sized with the working-set size see the working set that was cut to that size.",
+             " Every solver kernel, fixed-point score and CSC helper is lifted on small concrete shapes (3x3 design with structural zeros / an empty column, non-contiguous groups, permuted working sets) where every subscript is bounds-checked by the lifter: an out-of-range index on those shapes is a violation. Across calls: a kernel that indexes a parameter by coordinates is never handed an array restricted to the working set; initialize / initialize_sparse is control-dependent on the storage dispatch only, so lazy attributes of earlier data are never read. Whole-array slot arguments match the per-feature attributes of accepted implementations; Anderson buffers and reshapes sized with the working-set size see the working set that was cut to that size. Arrays allocated with np.empty and filled entry by entry receive a store on every path through an iteration.",
         design_ref="DESIGN.md §2 L4, §3.4 R-IDX/R-SLICE, §4 C20",
         note="Extents are symbols with +/-1 offsets; G <= P is never assumed.",
         technique="index-domain inference + linear offset comparison of loop bounds and "
@@ -262,7 +262,7 @@ CLAIMS = {
              "_alpha_max_group_lasso and the default grid of SqrtLasso.path equal the value "
              "derived from their datafit's gradient accessor at the null model and the slope of "
              "their penalty's value() at the zero block (small concrete design, zero weights "
-             "included).",
+             "included). The stopping value returned is defined only on paths that reach the outer test (intercept term included); the group-lasso critical value is lifted with non-contiguous groups.",
         design_ref="DESIGN.md §3.5 R-THR, §4 C16",
         note="That a fit slightly below alpha_max is non-zero is numerical.",
         technique="guarded-division dominator rule + certificate slice rule",
@@ -287,7 +287,7 @@ CLAIMS = {
              "read fitted state only under warm_start; no globals/module containers; the only "
              "cache is the class factory keyed by all its parameters; compiled_clone returns "
              "a fresh instance; solver objects are immutable after construction."
-             " Validation helpers that may return their argument are not copies (stores after check_array / asarray count as stores into the caller's array, by reaching definitions); solver locals that may alias a constructor array are never updated in place, directly or in a callee; no hand-made module-level cache; the datafit is re-initialised on every solve.",
+             " Validation helpers that may return their argument are not copies (stores after check_array / asarray count as stores into the caller's array, by reaching definitions); solver locals that may alias a constructor array are never updated in place, directly or in a callee; no hand-made module-level cache; the datafit is re-initialised on every solve. Lazy attributes are re-assigned by every initialisation; accessors do not write self; solver __init__ builds no shared mutable object.",
         design_ref="DESIGN.md §3.3 R-STATE/R-PURE, §4 C18",
         note="Equality of results across fit histories follows from purity plus kernel "
              "determinism; the RNG draw in spectral_norm is reported as a note.",
@@ -300,7 +300,7 @@ CLAIMS = {
              "fact (or is a tabled exemption with a reason), and that every loop is bounded "
              "(for over ranges/arrays; the two while loops have recorded variants). "
              "Finiteness under overflow is not decided."
-             " No absolute-epsilon guard; the only tabled division exemptions are per construct. spectral_norm on an all-empty block returns 0 without a 0 / 0.",
+             " No absolute-epsilon guard; the only tabled division exemptions are per construct. spectral_norm on an all-empty block returns 0 without a 0 / 0. Zero group / zero task / zero weight: fixed-point scores with a zero-curvature group first, the multitask epoch with an identically zero task (model fit still follows the coefficients), block prox with zero weight and zero input - a divisor that is identically zero on such an input is a violation.",
         design_ref="DESIGN.md §3.1 R-DIV/R-LOOP, §4 C19",
         note="numpy-level divisions (inf, no exception) at interpreter level are accepted "
              "unless the denominator is a Python float returned by a jitclass method.",
